@@ -39,6 +39,7 @@ type vfMqtt struct {
 	Published []vfPublished
 	broker    *vfBroker // nil: recording only
 	refuse    bool      // the broker refuses topic subscriptions (environment fault)
+	failPubs  int       // the next failPubs publishes fail (broker unreachable)
 }
 
 // vfBroker is the in-process stand-in of the MQTT broker: every publish is
@@ -74,6 +75,10 @@ func (m *vfMqtt) Connect() mqtt.Token     { return vfToken{} }
 func (m *vfMqtt) Disconnect(quiesce uint) {}
 func (m *vfMqtt) Publish(topic string, qos byte, retained bool, payload interface{}) mqtt.Token {
 	vf.Yield() // a round trip to the broker is a scheduling point
+	if m.failPubs > 0 {
+		m.failPubs--
+		return vfToken{err: errRefused}
+	}
 	b, _ := payload.([]byte)
 	m.Published = append(m.Published, vfPublished{Topic: topic, Payload: b})
 	if m.broker != nil {
